@@ -55,6 +55,20 @@ class BaseMerger(ABC):
                     continue
 
                 association = data.association.name
+
+                if association not in data_count:
+                    # values of the input as a whole are carried over as they are
+                    out_entity.add_data(
+                        {
+                            data.name: {
+                                "values": data.values,
+                                "association": association,
+                                "entity_type": data.entity_type,
+                            }
+                        }
+                    )
+                    continue
+
                 label = (data.name, data.entity_type.name, association)
                 start, end = (
                     data_count[association],
